@@ -274,12 +274,50 @@ func c14DepthGraph(r *Run, rel, entryName, label string) {
 		}
 		edges = kept
 	}
-	hasGuard := func(fd *ast.FuncDecl) bool {
+	var hasGuard func(fd *ast.FuncDecl) bool
+	hasGuard = func(fd *ast.FuncDecl) bool {
 		_, dp := depthParam(fd)
 		if dp == nil {
 			return false
 		}
 		g := false
+		// the guard may live in a helper: if err := checkDepth(depth, …); err != nil { return …, err }
+		ast.Inspect(fd.Body, func(n ast.Node) bool {
+			ifs, ok := n.(*ast.IfStmt)
+			if !ok || ifs.Init == nil {
+				return true
+			}
+			as, ok := ifs.Init.(*ast.AssignStmt)
+			if !ok || len(as.Rhs) != 1 {
+				return true
+			}
+			c, ok := ast.Unparen(as.Rhs[0]).(*ast.CallExpr)
+			if !ok {
+				return true
+			}
+			cal, ok := calleeOf(info, c).(*types.Func)
+			if !ok || declOf[cal] == nil || declOf[cal] == fd {
+				return true
+			}
+			passes := false
+			for _, a := range c.Args {
+				if id, ok := ast.Unparen(a).(*ast.Ident); ok && id.Name == dp.Name {
+					passes = true
+				}
+			}
+			if !passes || !(hasGuard(declOf[cal]) || isDepthPredicate(info, declOf[cal], depthParam)) {
+				return true
+			}
+			for _, s := range ifs.Body.List {
+				if rs, ok := s.(*ast.ReturnStmt); ok && len(rs.Results) > 0 && exprStr(rs.Results[len(rs.Results)-1]) != "nil" {
+					g = true
+				}
+			}
+			return true
+		})
+		if g {
+			return true
+		}
 		ast.Inspect(fd.Body, func(n ast.Node) bool {
 			ifs, ok := n.(*ast.IfStmt)
 			if !ok {
@@ -355,15 +393,20 @@ func c14DepthGraph(r *Run, rel, entryName, label string) {
 	}
 }
 
-// c14Alloc: make(_, n) / make(_, 0, n) with n from strconv.Atoi/ParseInt on the input.
+// c14Alloc: make(_, n) / make(_, 0, n) with n a number decoded from the input (strconv result, or the
+// integer result of a parser helper that returns such a number) must be dominated by a comparison of n
+// with a len()-based bound whose failing arm leaves the function — in the allocating function or in
+// the helper that produced n.
 func c14Alloc(r *Run) {
 	r.curRule = "C14-ALLOC"
 	php := r.pkg("std/php")
 	info := php.TypesInfo
+	declOf := map[types.Object]*ast.FuncDecl{}
 	for _, fd := range funcDecls(php) {
-		if !strings.HasPrefix(fd.Name.Name, "parsePhp") {
-			continue
-		}
+		declOf[info.Defs[fd.Name]] = fd
+	}
+	// variables of fd holding a strconv result
+	parsedVars := func(fd *ast.FuncDecl) map[types.Object]bool {
 		parsed := map[types.Object]bool{}
 		ast.Inspect(fd.Body, func(n ast.Node) bool {
 			if as, ok := n.(*ast.AssignStmt); ok && len(as.Rhs) == 1 {
@@ -372,9 +415,105 @@ func c14Alloc(r *Run) {
 						if id, ok := as.Lhs[0].(*ast.Ident); ok {
 							if o := info.Defs[id]; o != nil {
 								parsed[o] = true
+							} else if o := info.Uses[id]; o != nil {
+								parsed[o] = true
 							}
 						}
 					}
+				}
+			}
+			return true
+		})
+		return parsed
+	}
+	// boundedBefore: an if before pos compares obj with a len()-based bound (>, >=) and its body leaves
+	boundedBefore := func(fd *ast.FuncDecl, obj types.Object, pos token.Pos) bool {
+		bounded := false
+		ast.Inspect(fd.Body, func(m ast.Node) bool {
+			ifs, ok := m.(*ast.IfStmt)
+			if !ok || ifs.Pos() > pos {
+				return true
+			}
+			hit := false
+			ast.Inspect(ifs.Cond, func(c ast.Node) bool {
+				be, ok := c.(*ast.BinaryExpr)
+				if !ok || (be.Op != token.GTR && be.Op != token.GEQ) {
+					return true
+				}
+				if x, ok := ast.Unparen(be.X).(*ast.Ident); ok && info.Uses[x] == obj && strings.Contains(exprStr(be.Y), "len(") {
+					hit = true
+				}
+				return true
+			})
+			if hit {
+				for _, st := range ifs.Body.List {
+					if _, ok := st.(*ast.ReturnStmt); ok {
+						bounded = true
+					}
+				}
+			}
+			return true
+		})
+		return bounded
+	}
+	// helperSize: h returns an input-decoded integer as result ri; bounded if every successful return of
+	// it is preceded by the bound test
+	type sizeInfo struct{ decoded, bounded bool }
+	helperSize := func(h *ast.FuncDecl, ri int) sizeInfo {
+		parsed := parsedVars(h)
+		out := sizeInfo{bounded: true}
+		ast.Inspect(h.Body, func(n ast.Node) bool {
+			rs, ok := n.(*ast.ReturnStmt)
+			if !ok || ri >= len(rs.Results) {
+				return true
+			}
+			id, ok := ast.Unparen(rs.Results[ri]).(*ast.Ident)
+			if !ok {
+				return true
+			}
+			if o := info.Uses[id]; parsed[o] {
+				out.decoded = true
+				if !boundedBefore(h, o, rs.Pos()) {
+					out.bounded = false
+				}
+			}
+			return true
+		})
+		return out
+	}
+	for _, fd := range funcDecls(php) {
+		if !strings.HasPrefix(fd.Name.Name, "parsePhp") {
+			continue
+		}
+		parsed := parsedVars(fd)
+		fromHelper := map[types.Object]sizeInfo{}
+		ast.Inspect(fd.Body, func(n ast.Node) bool {
+			as, ok := n.(*ast.AssignStmt)
+			if !ok || len(as.Rhs) != 1 {
+				return true
+			}
+			c, ok := ast.Unparen(as.Rhs[0]).(*ast.CallExpr)
+			if !ok {
+				return true
+			}
+			h := declOf[calleeOf(info, c)]
+			if h == nil || h == fd {
+				return true
+			}
+			for i, l := range as.Lhs {
+				id, ok := l.(*ast.Ident)
+				if !ok || id.Name == "_" {
+					continue
+				}
+				o := info.Defs[id]
+				if o == nil {
+					o = info.Uses[id]
+				}
+				if o == nil || !isIntType(o.Type()) {
+					continue
+				}
+				if si := helperSize(h, i); si.decoded {
+					fromHelper[o] = si
 				}
 			}
 			return true
@@ -390,30 +529,16 @@ func c14Alloc(r *Run) {
 			}
 			for _, a := range c.Args[1:] {
 				aid, ok := ast.Unparen(a).(*ast.Ident)
-				if !ok || !parsed[info.Uses[aid]] {
+				if !ok {
 					continue
 				}
-				// a preceding sibling if-statement compares the size with a len()-based bound and leaves
-				bounded := false
-				ast.Inspect(fd.Body, func(m ast.Node) bool {
-					ifs, ok := m.(*ast.IfStmt)
-					if !ok || ifs.Pos() > c.Pos() {
-						return true
-					}
-					be, ok := ast.Unparen(ifs.Cond).(*ast.BinaryExpr)
-					if !ok || (be.Op != token.GTR && be.Op != token.GEQ) {
-						return true
-					}
-					if x, ok := ast.Unparen(be.X).(*ast.Ident); ok && info.Uses[x] == info.Uses[aid] && strings.Contains(exprStr(be.Y), "len(") {
-						for _, s := range ifs.Body.List {
-							if _, ok := s.(*ast.ReturnStmt); ok {
-								bounded = true
-							}
-						}
-					}
-					return true
-				})
-				key := fmt.Sprintf("%s#make:%s", funcKey(php, fd), aid.Name)
+				o := info.Uses[aid]
+				si, viaHelper := fromHelper[o]
+				if !parsed[o] && !viaHelper {
+					continue
+				}
+				bounded := boundedBefore(fd, o, c.Pos()) || (viaHelper && si.bounded)
+				key := fmt.Sprintf("std/php#make-sized-by-input:%s", aid.Name)
 				if bounded {
 					r.ok(key, c.Pos(), "allocation size "+aid.Name+" is bounded by the remaining input before it is used")
 				} else {
@@ -423,4 +548,43 @@ func c14Alloc(r *Run) {
 			return true
 		})
 	}
+}
+
+// isDepthPredicate: a helper whose only result is an error, that compares its depth parameter with a
+// limit and has both a nil and a non-nil outcome (either polarity of the comparison).
+func isDepthPredicate(info *types.Info, fd *ast.FuncDecl, depthParam func(*ast.FuncDecl) (int, *ast.Ident)) bool {
+	if fd == nil || fd.Type.Results == nil || fd.Type.Results.NumFields() != 1 {
+		return false
+	}
+	if t := info.TypeOf(fd.Type.Results.List[0].Type); t == nil || t.String() != "error" {
+		return false
+	}
+	_, dp := depthParam(fd)
+	if dp == nil {
+		return false
+	}
+	cmp, retNil, retErr := false, false, false
+	ast.Inspect(fd.Body, func(n ast.Node) bool {
+		switch x := n.(type) {
+		case *ast.BinaryExpr:
+			switch x.Op {
+			case token.LSS, token.LEQ, token.GTR, token.GEQ:
+				for _, side := range []ast.Expr{x.X, x.Y} {
+					if id, ok := ast.Unparen(side).(*ast.Ident); ok && id.Name == dp.Name {
+						cmp = true
+					}
+				}
+			}
+		case *ast.ReturnStmt:
+			if len(x.Results) == 1 {
+				if exprStr(x.Results[0]) == "nil" {
+					retNil = true
+				} else {
+					retErr = true
+				}
+			}
+		}
+		return true
+	})
+	return cmp && retNil && retErr
 }
